@@ -58,6 +58,12 @@ func Spec() *run.Spec {
 			"nontrivial.Mesh.WeldByFloat3Attribute":          50,
 			"nontrivial.weld∘unweld":                         50,
 			"nontrivial.Mesh.ToPointCloud":                   100,
+			"sequences.remove_unreferenced":                  1000,
+			"sequences.filter":                               1000,
+			"sequences.split":                                500,
+			"weld.stride_exponents":                          10,
+			"weld.stride_pairs":                              2000,
+			"weld.distinct_cells_congruent_mod_2^15":         2000,
 			"large.point_clouds":                             5,
 			"large.triangle_meshes":                          3,
 			"large.filter_and_crop_runs":                     60,
@@ -361,6 +367,8 @@ type opctx struct {
 	retained []retainedOut
 	// noRetain: phase large does not keep every (huge) result until the end of the case
 	noRetain bool
+	// subs: contexts of further meshes used by the same case (call sequences)
+	subs []*opctx
 }
 
 type retainedOut struct {
@@ -491,6 +499,9 @@ func (o *opctx) stillSame(r retainedOut, later []string, extra ...any) bool {
 
 // reverify re-reads every result of the case after all its operations have run.
 func (o *opctx) reverify() {
+	for _, s := range o.subs {
+		s.reverify()
+	}
 	for i, r := range o.retained {
 		var later []string
 		for _, l := range o.retained[i+1:] {
